@@ -149,6 +149,7 @@ type FnTrans struct {
 	noGuardCheck      bool
 	slicedArrays      []slicedArr
 	havocAll          bool
+	lastCall          *ssa.CallCommon // the call whose ghost positions are being executed
 	genCount          int
 	genMerges         map[string]genMerge
 	useBytes          bool
